@@ -96,6 +96,14 @@ class Inst:
     def job(self, j):
         return self.h.at(self.jobs, j)
 
+    def cumL(self, t):
+        """ghost prefix sums of the job lengths: cumL(t) = L(0) + ... + L(t-1)"""
+        return z3.Select(self.h.get("$$cumL", self.I), t)
+
+    @property
+    def N(self):
+        return self.cumL(self.J)
+
     def L(self, j):
         return self.h.len(self.job(j))
 
@@ -144,6 +152,8 @@ def valid_instance(h, I, bound=None):
                                                   it.dur(o) >= 0, it.machines(o) > 0,
                                                   it.machines(o) < A, it.nmach(o) >= 1)),
                                patterns=[it.op(j, p)])),
+        ("inst-cum", z3.And(it.cumL(0) == 0, forall([j], imp(rng(j, 0, it.J), it.cumL(j + 1) == it.cumL(j) + it.L(j))))),
+        ("inst-cum-monotone", forall([j, p], imp(z3.And(0 <= j, j <= p, p <= it.J), it.cumL(j) <= it.cumL(p)))),
         ("inst-machines", forall([j, p, q], imp(z3.And(rng(j, 0, it.J), rng(p, 0, it.L(j)),
                                                           rng(q, 0, it.nmach(o))),
                                                    rng(it.mach(o, q), 0, it.NM)),
@@ -169,6 +179,19 @@ class Disp:
 
     def Sm(self, m):
         return self.h.at(self.S, m)
+
+    def cumS(self, t):
+        """ghost prefix sums of the machine list lengths"""
+        return z3.Select(self.h.get("$$cumS", self.sch), t)
+
+    def cumK(self, t):
+        """ghost prefix sums of the next-operation indices"""
+        return z3.Select(self.h.get("$$cumK", self.d), t)
+
+    @property
+    def n(self):
+        """number of scheduled operations"""
+        return self.cumS(self.M)
 
     def nS(self, m):
         return self.h.len(self.Sm(m))
@@ -268,6 +291,13 @@ def reach(h, d):
                                              D.jn(it.jid(o)) == D.end(x)), patterns=[D.x(m, i)])),
         ("R8-job-ready-0", forall([j], imp(z3.And(rng(j, 0, it.J), D.kj(j) == 0), D.jn(j) == 0),
                                    patterns=[D.jn(j)])),
+        ("R9-count-per-machine", z3.And(D.cumS(0) == 0, forall([m], imp(rng(m, 0, D.M),
+                                                                      D.cumS(m + 1) == D.cumS(m) + D.nS(m))))),
+        ("R9-count-per-job", z3.And(D.cumK(0) == 0, forall([j], imp(rng(j, 0, it.J),
+                                                                  D.cumK(j + 1) == D.cumK(j) + D.kj(j))))),
+        ("R9-counts-agree", D.cumS(D.M) == D.cumK(it.J)),
+        ("R9-deficit-monotone", forall([j, p], imp(z3.And(0 <= j, j <= p, p <= it.J),
+                                                   it.cumL(j) - D.cumK(j) <= it.cumL(p) - D.cumK(p)))),
         ("R-subscribers", forall([s], imp(rng(s, 0, h.len(D.subs)),
                                              z3.And(h.at(D.subs, s) > 0, h.at(D.subs, s) < A,
                                                     h.get("dispatcher", h.at(D.subs, s)) == d)),
@@ -352,3 +382,53 @@ def same_lists(h0, h1, lists):
         out.append(h1.len(l) == h0.len(l))
         out.append(z3.Select(h1.El, l) == z3.Select(h0.El, l))
     return z3.And(out)
+
+
+# ---------------------------------------------------------------------------
+# relevance: which Reach / ValidInstance conjuncts a conjunct's proof needs.
+# Only used to *hide* hypotheses (sound); if the reduced proof fails the verifier falls
+# back to the full path condition.
+# ---------------------------------------------------------------------------
+_INST = ["inst-refs", "inst-jobs", "inst-ops", "inst-cum", "inst-cum-monotone", "inst-machines"]
+_SHAPE = _INST[:3] + ["R1-shape", "R1-machine-lists", "R1-machine-lists-distinct", "R2-next-index"]
+_RELEVANT = {
+    "inst-refs": _INST + _SHAPE, "inst-jobs": _INST + _SHAPE,
+    "inst-ops": _INST + _SHAPE, "inst-machines": _INST + _SHAPE,
+    "inst-cum": _INST + _SHAPE, "inst-cum-monotone": _INST + _SHAPE,
+    "R1-shape": _SHAPE, "R1-machine-lists": _SHAPE, "R1-machine-lists-distinct": _SHAPE,
+    "R2-next-index": _SHAPE,
+    "R4a-scheduled-are-ops": _SHAPE + ["R4a-scheduled-are-ops"],
+    "R5-machine-eligible": _SHAPE + ["R4a-scheduled-are-ops", "R5-machine-eligible", "inst-machines"],
+    "R4b-ops-before-k-scheduled": _SHAPE + ["R4a-scheduled-are-ops", "R4b-ops-before-k-scheduled"],
+    "R6-forced-start": _SHAPE + ["R4a-scheduled-are-ops", "R4b-ops-before-k-scheduled", "R6-forced-start",
+                                 "R8-machine-free", "R8-job-ready", "R8-job-ready-0"],
+    "R8-machine-free": _SHAPE + ["R4a-scheduled-are-ops", "R8-machine-free", "R6-forced-start"],
+    "R8-job-ready": _SHAPE + ["R4a-scheduled-are-ops", "R4b-ops-before-k-scheduled", "R8-job-ready",
+                              "R8-job-ready-0"],
+    "R8-job-ready-0": _SHAPE + ["R8-job-ready-0", "R8-job-ready"],
+    "R9-count-per-machine": _SHAPE + ["R9-count-per-machine"],
+    "R9-count-per-job": _SHAPE + ["R9-count-per-job"],
+    "R9-counts-agree": _SHAPE + ["R9-count-per-machine", "R9-count-per-job", "R9-counts-agree"],
+    "R9-deficit-monotone": _SHAPE + ["R9-count-per-job", "R9-deficit-monotone", "inst-cum", "inst-cum-monotone"],
+    "R-subscribers": _SHAPE + ["R-subscribers"],
+}
+_FAMILY = set(_RELEVANT)
+
+
+def _base(tag):
+    """`after-update:R6-forced-start` -> `R6-forced-start`"""
+    return tag.split(":")[-1]
+
+
+def relevance(obligation_name):
+    """-> predicate on hypothesis tags, or None (use everything)"""
+    import re
+    goal = re.sub(r"@\d+$", "", obligation_name).split(":")[-1]
+    if goal not in _RELEVANT:
+        return None
+    wanted = set(_RELEVANT[goal])
+
+    def keep(tag):
+        b = _base(tag)
+        return b not in _FAMILY or b in wanted
+    return keep
